@@ -46,6 +46,13 @@ func main() {
 		os.Exit(2)
 	}
 	name := os.Args[1]
+	if name == "plugworker" {
+		lgw := logger.GetLogger("harness")
+		lgw.Logger.SetOutput(io.Discard)
+		lgw.Logger.SetLevel(logrus.PanicLevel)
+		runPlugWorker()
+		return
+	}
 	if name == "facts" {
 		runFacts(os.Args[2:])
 		return
